@@ -5,13 +5,14 @@ mod arc;
 mod cstr;
 mod cview;
 mod vec;
+mod waker;
 
 #[cfg(not(miri))]
 #[global_allocator]
 static GLOBAL: simcore::alloc::SimAlloc = simcore::alloc::SimAlloc;
 
 fn main() {
-    let engines: Vec<&dyn simcore::Engine> = vec![&arc::ArcEngine, &vec::VecEngine, &cstr::CStrEngine];
+    let engines: Vec<&dyn simcore::Engine> = vec![&arc::ArcEngine, &vec::VecEngine, &cstr::CStrEngine, &waker::WakerEngine];
     let code = simcore::worker::worker_main(&engines);
     if code != 0 {
         std::process::exit(code);
